@@ -202,13 +202,10 @@ impl Expr {
             return true;
         }
 
-        let function = match expr.function {
-            Some(ref function) => function.is_numeric_function(),
-            None => false,
-        };
-
-        if function {
-            return true;
+        // the value of a function call is what the function returns, whatever its arguments are
+        // (`concat(size, name)` is a text)
+        if let Some(ref function) = expr.function {
+            return function.is_numeric_function();
         }
 
         match expr.left {
@@ -229,6 +226,11 @@ impl Expr {
 
         if field {
             return true;
+        }
+
+        // (no function returns a date and time: `concat(modified, name)` is a text)
+        if expr.function.is_some() {
+            return false;
         }
 
         match expr.left {
